@@ -294,7 +294,8 @@ func genWatchShaped(r *sx.Rng) spec {
 	case 4:
 		path = seg() + "/" + seg()
 	case 5:
-		path = sx.Pick(r, []string{"/", "//", "/..", "/.", ".", "..", "/" + seg() + "/.."})
+		// "/" itself is left out: path= naming an existing directory is outside the property's domain (the -w form re-derives the kind by stat)
+		path = sx.Pick(r, []string{"//", "/..", "/.", ".", "..", "/" + seg() + "/.."})
 	}
 	perm := item{field: "perm", op: "="}
 	for k := 1 + r.Intn(4); k > 0; k-- {
